@@ -3,10 +3,15 @@
    proofs in Oscore/ReplayProofs.v, Oscore/SenderSeqProofs.v, witnesses in
    Oscore/ReplayRefuted.v.
 
-   [rp_fixed] is the recipient code after the five "fix:" commits in /repo (the variant the
+   [rp_fixed] is the recipient code after the seven "fix:" commits in /repo (the variant the
    correspondence check runs against the C on every invocation), [rp_orig] the code as found.
-   A history is any list of messages, each with any sequence number in its Partial IV, genuine
-   or forged, with or without a (valid or invalid) Echo option.  W is replay_window_size (every
+   A history is any list of messages: requests, and responses that carry a Partial IV of their
+   own (notifications) for requests of this endpoint; each with any sequence number in its
+   Partial IV, genuine, forged or turned away before the replay check, with or without a (valid
+   or invalid) Echo option.  [rp_accepted] lists the numbers accepted after a replay check
+   (verdict RpAccept: every accepted request, and every accepted response once the context is
+   armed); a response delivered while the context is still in its initial state has the
+   verdict RpAcceptUnchecked - nothing is claimed for those (see notes/C15.md).  W is replay_window_size (every
    integer; the code keeps 64 bits, so sizes above 64 act like 64), b12 is rfc8613_b_1_2. *)
 From LibcoapV Require Import Base.Tactics Oscore.Replay Oscore.ReplayProofs Oscore.ReplayRefuted
   Oscore.SenderSeq Oscore.SenderSeqProofs Oscore.EndToEnd.
@@ -34,7 +39,7 @@ Print Assumptions C15_window_exact.
 Theorem C15_forgery_no_trace : forall W b12 s m,
   rp_reachable W b12 s -> rp_m_auth m <> RpGenuine ->
   rp_obs (snd (rp_recv rp_fixed W b12 s m)) = rp_obs s /\
-  fst (rp_recv rp_fixed W b12 s m) <> RpAccept.
+  rp_delivered (fst (rp_recv rp_fixed W b12 s m)) = false.
 Proof. exact rp_forgery_no_trace. Qed.
 Print Assumptions C15_forgery_no_trace.
 
@@ -151,7 +156,7 @@ Theorem C15_orig_shift_by_width_refuted :
 Proof. exact rp_orig_shift_by_width_refuted. Qed.
 Print Assumptions C15_orig_shift_by_width_refuted.
 
-(* ---- each of the five repairs is necessary (the other four applied) ---- *)
+(* ---- each of the seven repairs is necessary (the other six applied) ---- *)
 
 Theorem C15_no_bitidx_refuted :
   exists h, ~ NoDup (rp_accepted rp_no_bitidx 32 false rp_init h) /\
@@ -182,6 +187,31 @@ Theorem C15_no_arm_refuted :
   exists h, ~ NoDup (rp_accepted rp_no_arm 32 false rp_init h).
 Proof. exact rp_no_arm_refuted. Qed.
 Print Assumptions C15_no_arm_refuted.
+
+(* forged responses (right token, any claimed Partial IV): on an endpoint that also serves the
+   peer, and on a plain client *)
+Theorem C15_no_resp_rb_refuted :
+  exists h,
+    rp_genuine_verdicts h (fst (rp_run rp_no_resp_rb 32 false rp_init h)) <>
+    fst (rp_run rp_no_resp_rb 32 false rp_init (filter rp_is_genuine h)).
+Proof. exact rp_no_resp_rb_refuted. Qed.
+Print Assumptions C15_no_resp_rb_refuted.
+
+Theorem C15_no_resp_nowrite_refuted :
+  exists h,
+    rp_genuine_verdicts h (fst (rp_run rp_no_resp_nowrite 32 true rp_init h)) <>
+    fst (rp_run rp_no_resp_nowrite 32 true rp_init (filter rp_is_genuine h)).
+Proof. exact rp_no_resp_nowrite_refuted. Qed.
+Print Assumptions C15_no_resp_nowrite_refuted.
+
+Theorem C15_orig_forged_response_refuted :
+  exists h1 h2,
+    rp_genuine_verdicts h1 (fst (rp_run rp_orig 32 true rp_init h1)) <>
+      fst (rp_run rp_orig 32 true rp_init (filter rp_is_genuine h1)) /\
+    rp_genuine_verdicts h2 (fst (rp_run rp_orig 32 true rp_init h2)) <>
+      fst (rp_run rp_orig 32 true rp_init (filter rp_is_genuine h2)).
+Proof. exact rp_orig_forged_response_refuted. Qed.
+Print Assumptions C15_orig_forged_response_refuted.
 
 (* ---- non-vacuity: concrete histories through the repaired model ---- *)
 
